@@ -79,6 +79,16 @@ def getattr_value(I, o, attr):
         return BoundMethod(o, attr)
     if isinstance(o, Fl) and attr in ("total_seconds", "date"):
         return BoundMethod(o, attr)
+    if isinstance(o, Fl) and attr in ("days", "seconds", "microseconds"):
+        # fields of a timedelta (normalised: 0 <= seconds < 86400, 0 <= microseconds < 1e6; microsecond resolution not modelled)
+        days = z3.ToInt(o.v / 86400)
+        if attr == "days":
+            return In(days)
+        if attr == "seconds":
+            return In(z3.ToInt(o.v - 86400 * z3.ToReal(days)))
+        raise Unsupported("timedelta.microseconds")
+    if isinstance(o, ClassRef) and attr == "__name__":
+        return o.name
     if isinstance(o, ClassRef) and (o.name, attr) in I.__dict__.get("class_attrs", {}):
         I.trace.append(("global_read", "%s.%s" % (o.name, attr)))
         return I.class_attrs[(o.name, attr)]
@@ -124,6 +134,8 @@ def getitem_value(I, o, k):
 def identical(a, b):
     if a is None or b is None:
         return (a is None) and (b is None)
+    if isinstance(a, Tm) != isinstance(b, Tm) and isinstance(a, Fl) and isinstance(b, Fl):
+        return False          # a datetime is never the float object np.nan
     if isinstance(a, Obj) and isinstance(b, Obj):
         return a.oid == b.oid
     if isinstance(a, bool) and isinstance(b, bool):
@@ -137,6 +149,8 @@ def identical(a, b):
 
 
 def contains(I, container, item):
+    if hasattr(container, "py_contains"):
+        return container.py_contains(I, item)
     if isinstance(container, Obj) and container.kind == "objmap":
         if not isinstance(item, KeyV):
             raise Unsupported("membership of %r" % (item,))
@@ -428,6 +442,8 @@ def call_builtin(I, name, args, kwargs):
         a = args[0]
         if isinstance(a, Obj) and a.kind == "rec":
             return ClassRef(a.cls)
+    if name == "getattr" and len(args) == 2 and hasattr(args[1], "py_attr_of"):
+        return args[1].py_attr_of(I, args[0])
     if name == "zip":
         return ("zip",) + tuple(args)
     if name == "deque":
@@ -436,6 +452,28 @@ def call_builtin(I, name, args, kwargs):
         return ("range",) + tuple(args)
     if name == "datetime.now":
         raise Unsupported("ambient nondeterminism: datetime.now()")
+    if name == "datetime":
+        vals = [z3.simplify(a.v) for a in args if isinstance(a, In)]
+        if len(vals) == len(args) and all(z3.is_int_value(v) for v in vals) and len(vals) >= 3:
+            import datetime as _dt
+            t = _dt.datetime(*[v.as_long() for v in vals])
+            return Tm((t - _dt.datetime(2000, 1, 1)).total_seconds())
+        raise Unsupported("datetime(...) with symbolic fields")
+    if name in ("bisect.bisect_left", "bisect.bisect_right"):
+        seq, x = args
+        p = I.heap[seq.oid]
+        if "at" not in p or not p.get("sorted"):
+            raise Unsupported("bisect on a sequence not known to be sorted")
+        n = p["len"]
+        i = I.idx("bisect")
+        xv = lift_fl(x).v
+        I.assume(z3.And(i >= 0, i <= n))
+        below = (lambda a, b: a < b) if name.endswith("left") else (lambda a, b: a <= b)
+        above = (lambda a, b: a <= b) if name.endswith("left") else (lambda a, b: a < b)
+        I.add_idx(i - 1)
+        I.assume(z3.Implies(i > 0, below(lift_fl(p["at"](i - 1)).v, xv)))
+        I.assume(z3.Implies(i < n, above(xv, lift_fl(p["at"](i)).v)))
+        return In(i)
     ext = I.registry.get("builtin:" + name)
     if ext is not None:
         return ext(I, args, kwargs)
